@@ -21,6 +21,7 @@ class Prop:
     assumptions = []
     nontrivial_rule = ""
     level = "proof"
+    shard_min = 2000            # case lists at least this long are sharded over processes (lower it for expensive cases)
 
     # --- hooks --------------------------------------------------------------
     def streams(self, tier, rng):
@@ -53,10 +54,23 @@ class Prop:
         return [i for i in range(1, len(parts)) if all(c in "0123456789abcdef" for c in parts[i]) and len(parts[i]) % 2 == 0 and parts[i]]
 
     def impl_builds(self, tier):
-        """list of (label, build kwargs)"""
+        """list of (label, build kwargs); the kwargs go to core.build_harness and may
+        carry their own `features` / `target_suffix` (one harness crate built
+        several times, e.g. once per feature set of the crate under test)"""
         if tier == "thorough":
             return [("debug", {}), ("release", {"release": True})]
         return [("debug", {})]
+
+    def build_case(self, label, line):
+        """the case line as implementation build `label` sees it.  When it differs
+        from `line`, the model and the spec are run on the rewritten line too and
+        that build is compared with those answers (default: every build sees the
+        same line)"""
+        return line
+
+    def coverage_extra(self):
+        """extra keys for the coverage section of the evidence file"""
+        return {}
 
 
 def shrink(prop, line, fails):
@@ -120,7 +134,9 @@ def run(prop, tier, seed, replay=None):
     impls = []
     herr = ""
     for label, kw in prop.impl_builds(tier):
-        exe, err = core.build_harness(prop.harness[0], prop.harness[1], features=prop.harness_features, **kw)
+        kw = dict(kw)
+        kw.setdefault("features", prop.harness_features)
+        exe, err = core.build_harness(prop.harness[0], prop.harness[1], **kw)
         if exe is None:
             herr += "[%s] %s\n" % (label, err)
         else:
@@ -140,11 +156,24 @@ def run(prop, tier, seed, replay=None):
 
     def three_sides(lines):
         res = {}
-        res["model"] = core.run_parallel([driver, "model"], lines, pid + "m")
-        res["spec"] = core.run_parallel([driver, "spec"], lines, pid + "s")
+        sm = prop.shard_min
+        memo = {}
+        res["model"] = core.run_parallel([driver, "model"], lines, pid + "m", min_cases=sm)
+        res["spec"] = core.run_parallel([driver, "spec"], lines, pid + "s", min_cases=sm)
         for label, exe in impls:
-            res["impl-" + label] = core.run_parallel([exe], lines, pid + "i" + label)
+            own = [prop.build_case(label, l) for l in lines]
+            res["impl-" + label] = core.run_parallel([exe], own, pid + "i" + label, min_cases=sm)
+            if own != lines:
+                key = "\n".join(own)      # builds that see the same rewritten lines share the model / spec run
+                if key not in memo:
+                    memo[key] = (core.run_parallel([driver, "model"], own, pid + "m" + label, min_cases=sm),
+                                 core.run_parallel([driver, "spec"], own, pid + "s" + label, min_cases=sm))
+                res["model-" + label], res["spec-" + label] = memo[key]
         return res
+
+    def side(r, which, label):
+        """model / spec answers that build `label` is compared with"""
+        return r.get(which + "-" + label, r[which])
 
     def impl_fails_spec(lines):
         r = three_sides(lines)
@@ -152,7 +181,7 @@ def run(prop, tier, seed, replay=None):
         for i in range(len(lines)):
             bad = False
             for label, _ in impls:
-                if r["spec"][i] != "N/A" and r["impl-" + label][i] != r["spec"][i]:
+                if side(r, "spec", label)[i] != "N/A" and r["impl-" + label][i] != side(r, "spec", label)[i]:
                     bad = True
             out.append(bad)
         return out
@@ -208,6 +237,7 @@ def run(prop, tier, seed, replay=None):
                     first_impl = None
                     for label, _ in impls:
                         im = r["impl-" + label][i]
+                        m, s = side(r, "model", label)[i], side(r, "spec", label)[i]
                         if first_impl is None:
                             first_impl = im
                         if im == "PANIC":
@@ -215,14 +245,17 @@ def run(prop, tier, seed, replay=None):
                         if im != m:
                             st["tie_diffs"] += 1
                             if len(tie_diffs) < 20:
-                                tie_diffs.append({"stream": name, "case": l, "build": label, "impl": im[:2000], "model": m[:2000]})
+                                tie_diffs.append({"stream": name, "case": prop.build_case(label, l), "build": label, "impl": im[:2000], "model": m[:2000]})
                         if s != "N/A" and im != s:
                             st["spec_diffs"] += 1
                             if len(violations) < 20:
-                                violations.append({"stream": name, "case": l, "build": label, "impl": im[:2000], "spec": s[:2000], "model": m[:2000]})
-                    if m != s and s != "N/A" and len(violations) == 0 and len(tie_diffs) == 0:
-                        # model and spec disagree although the implementation agrees with neither check above
-                        tie_diffs.append({"stream": name, "case": l, "build": "model-vs-spec", "impl": first_impl[:2000], "model": m[:2000], "spec": s[:2000]})
+                                violations.append({"stream": name, "case": prop.build_case(label, l), "build": label, "impl": im[:2000], "spec": s[:2000], "model": m[:2000]})
+                    for label in ["*"] + [lb for lb, _ in impls]:
+                        m, s = side(r, "model", label)[i], side(r, "spec", label)[i]
+                        if m != s and s != "N/A" and len(violations) == 0 and len(tie_diffs) == 0:
+                            # model and spec disagree although the implementation agrees with neither check above
+                            tie_diffs.append({"stream": name, "case": l if label == "*" else prop.build_case(label, l), "build": "model-vs-spec",
+                                              "impl": first_impl[:2000], "model": m[:2000], "spec": s[:2000]})
                     if prop.nontrivial(l, first_impl):
                         nontrivial.add(l)
                     if len(samples) < 6 and i in (0, len(lines) // 2):
@@ -277,9 +310,10 @@ def run(prop, tier, seed, replay=None):
                         v = dict(v)
                         v["original_case"] = v["case"]
                         v["case"] = small
-                        v["model"] = r["model"][0][:2000]
-                        v["spec"] = r["spec"][0][:2000]
-                        v["impl"] = r["impl-" + impls[0][0]][0][:2000]
+                        lb = v.get("build") if any(v.get("build") == x for x, _ in impls) else impls[0][0]
+                        v["model"] = side(r, "model", lb)[0][:2000]
+                        v["spec"] = side(r, "spec", lb)[0][:2000]
+                        v["impl"] = r["impl-" + lb][0][:2000]
                 except RuntimeError:
                     pass
             payload = dict(v)
@@ -318,6 +352,7 @@ def run(prop, tier, seed, replay=None):
     }
     coverage.update({k: v for k, v in extra_coverage.items() if k not in coverage})
     coverage.update(prop.extra_coverage())
+    coverage.update(prop.coverage_extra())
     core.write_evidence(pid, tier, seed, coverage, list(prop.assumptions), wall, 1 if status else 0, level=prop.level)
 
     for l in known_lines:
